@@ -12,7 +12,7 @@ use std::rc::Rc;
 pub const DEF: PropDef = PropDef {
     id: "C16",
     level: "exploration",
-    rule: "programs built directly as AST values (public fields): the whole canonical corpus of the reference grammar (every statement kind with every slot filled from 14 expression shapes, operator chains, lists, calls, subscripts), every block-nesting shape up to 5 (thorough 7) nodes, plus trees the parser never produces (empty else / then / loop / function blocks, functions with 0..3 parameters, poetic literals with word / suffix / dot elements in rock and assignment); for each program every failing position k = 0..n-1 of the leaf callbacks plus 'never'; a recording visitor that overrides only the eight leaf callbacks runs through ExprVisitorRunner, its Output is the free monoid (event list); expected = reference traversal of the tree in field order; checks: returned list = side-effect log = expected; failing at k returns Err(k) unchanged with log = expected[..=k]; second family: 15 probe visitors, each overriding the eight leaves plus exactly ONE interior callback of VisitExpr (assignment lhs/rhs, poetic rhs, poetic literal, push rhs, pop expression, expression list, expression, primary, binary, unary, subscript, call, identifier, variable name), for every program x every failing entry of that callback plus never: every typed node of that kind must be presented exactly once, in order relative to the leaves (typed reference walk over the public AST, cross-checked against the RAst walk); third family: an Output whose Default is the visible one-element list [Start]: between consecutive leaves the result must contain at least as many Starts as pure list folds (program blocks, block statements, expression list, poetic literal, parameters) begin there; non-trivial = programs with at least 2 leaf events / at least one entry of the probed kind; distinct = distinct (program, k)",
+    rule: "programs built directly as AST values (public fields): the whole canonical corpus of the reference grammar (every statement kind with every slot filled from 14 expression shapes, operator chains, lists, calls, subscripts), every block-nesting shape up to 5 (thorough 7) nodes, plus trees the parser never produces (empty else / then / loop / function blocks, functions with 0..3 parameters, poetic literals with word / suffix / dot elements in rock and assignment); for each program every failing position k = 0..n-1 of the leaf callbacks plus 'never'; a recording visitor that overrides only the eight leaf callbacks runs through ExprVisitorRunner, its Output is the free monoid (event list); expected = reference traversal of the tree in field order; checks: returned list = side-effect log = expected; failing at k returns Err(k) unchanged with log = expected[..=k]; second family: 15 probe visitors, each overriding the eight leaves plus exactly ONE interior callback of VisitExpr (assignment lhs/rhs, poetic rhs, poetic literal, push rhs, pop expression, expression list, expression, primary, binary, unary, subscript, call, identifier, variable name), for every program x every failing entry of that callback plus never: every typed node of that kind must be presented exactly once, in order relative to the leaves (typed reference walk over the public AST, cross-checked against the RAst walk); third family: an Output whose Default is the visible one-element list [Start]: between consecutive leaves the result must contain at least as many Starts as pure list folds (program blocks, block statements, expression list, poetic literal, parameters) begin there; fourth family: an Output that is the free magma (combine(a, b) = (a b)): the result must be what folding every node's children left to right gives — ((d? c1) c2) .. cn with the default optional at the start and absent parts folded in as a default or left out; non-trivial = programs with at least 2 leaf events / at least one entry of the probed kind; distinct = distinct (program, k)",
     assumptions: &["the reference traversal (children in field order) is written against the RAst mirror of the public AST", "mutation operator and rounding direction callbacks belong to VisitProgram, not to the expression visitor, and are not observable through the runner"],
     build,
     exhaustive: true,
@@ -294,6 +294,187 @@ impl Visit for MarkedRecorder {
 }
 impl VisitExpr for MarkedRecorder {
     leaf_callbacks!();
+}
+
+// ---------------------------------------------------------------- fold grouping: an output that remembers how it was combined
+/// the free magma: combine(a, b) = (a b). Unlike a list it shows whether a fold went left to right
+#[derive(Clone, Debug, PartialEq)]
+pub enum CT {
+    Def,
+    Leaf(Ev),
+    Comb(Box<CT>, Box<CT>),
+}
+impl Default for CT {
+    fn default() -> Self {
+        CT::Def
+    }
+}
+impl Combine for CT {
+    fn combine(self, other: Self) -> Self {
+        CT::Comb(Box::new(self), Box::new(other))
+    }
+}
+pub struct TreeRecorder;
+impl TreeRecorder {
+    fn leaf(&mut self, e: Ev) -> Result<CT, usize> {
+        Ok(CT::Leaf(e))
+    }
+}
+impl Visit for TreeRecorder {
+    type Output = CT;
+    type Error = usize;
+}
+impl VisitExpr for TreeRecorder {
+    leaf_callbacks!();
+}
+
+/// what a node folds, in field order; Absent = an optional part that is not there (or a callback that
+/// yields nothing), which an implementation may fold in as a default or leave out
+#[derive(Clone, Debug)]
+pub enum Sh {
+    Leaf(Ev),
+    Absent,
+    Node(Vec<Sh>),
+}
+
+/// t is the result for s when every node folds its children left to right: ((d? c1) c2) ... cn
+fn shape_matches(t: &CT, s: &Sh) -> bool {
+    match s {
+        Sh::Leaf(e) => *t == CT::Leaf(e.clone()),
+        Sh::Absent => *t == CT::Def,
+        Sh::Node(ch) => fold_matches(t, ch),
+    }
+}
+fn fold_matches(t: &CT, ch: &[Sh]) -> bool {
+    let (last, rest) = match ch.split_last() {
+        None => return *t == CT::Def,
+        Some(x) => x,
+    };
+    if matches!(last, Sh::Absent) && fold_matches(t, rest) {
+        return true;
+    }
+    if let CT::Comb(l, r) = t {
+        // the cheap side first: with nothing left to fold, l can only be the default
+        let ok = if rest.is_empty() { **l == CT::Def && shape_matches(r, last) } else { shape_matches(r, last) && fold_matches(l, rest) };
+        if ok {
+            return true;
+        }
+    }
+    rest.iter().all(|c| matches!(c, Sh::Absent)) && shape_matches(t, last)
+}
+
+struct ShapeOf;
+impl ShapeOf {
+    fn program(&self, p: &a::Program) -> Sh {
+        Sh::Node(p.code.iter().map(|b| self.block(b)).collect())
+    }
+    fn block(&self, b: &a::Block) -> Sh {
+        match b {
+            a::Block::Empty(_) => Sh::Node(vec![]),
+            a::Block::NonEmpty(ss) => Sh::Node(ss.iter().map(|s| self.stmt(s)).collect()),
+        }
+    }
+    fn opt<T>(&self, o: Option<&T>, f: impl Fn(&T) -> Sh) -> Sh {
+        o.map_or(Sh::Absent, f)
+    }
+    fn stmt(&self, s: &a::Statement) -> Sh {
+        use a::Statement as S;
+        match s {
+            S::Assignment(x) => Sh::Node(vec![
+                self.lhs(&x.dest),
+                x.operator.map_or(Sh::Absent, |o| Sh::Leaf(Ev::Bin(format!("{:?}", o)))),
+                match &x.value {
+                    a::AssignmentRHS::ExpressionList(e) => Sh::Node(vec![self.expression_list(e)]),
+                },
+            ]),
+            S::PoeticAssignment(a::PoeticAssignment::Number(x)) => Sh::Node(vec![
+                self.lhs(&x.dest),
+                match &x.rhs {
+                    a::PoeticNumberAssignmentRHS::Expression(e) => Sh::Node(vec![self.expression(e)]),
+                    a::PoeticNumberAssignmentRHS::PoeticNumberLiteral(p) => Sh::Node(vec![self.poetic(p)]),
+                },
+            ]),
+            S::PoeticAssignment(a::PoeticAssignment::String(x)) => Sh::Node(vec![self.lhs(&x.dest)]),
+            S::If(x) => Sh::Node(vec![self.expression(&x.condition), self.block(&x.then_block), self.opt(x.else_block.as_ref(), |b| self.block(b))]),
+            S::While(x) => Sh::Node(vec![self.expression(&x.condition), self.block(&x.block)]),
+            S::Until(x) => Sh::Node(vec![self.expression(&x.condition), self.block(&x.block)]),
+            S::Inc(x) => Sh::Node(vec![self.identifier(&x.dest)]),
+            S::Dec(x) => Sh::Node(vec![self.identifier(&x.dest)]),
+            S::Input(x) => Sh::Node(vec![self.opt(x.dest.opt(), |l| self.lhs(l))]),
+            S::Output(x) => Sh::Node(vec![self.expression(&x.value)]),
+            S::Return(x) => Sh::Node(vec![self.expression(&x.value)]),
+            S::Mutation(x) => Sh::Node(vec![Sh::Absent, self.primary(&x.operand), self.opt(x.dest.as_ref(), |l| self.lhs(l)), self.opt(x.param.as_ref(), |e| self.expression(e))]),
+            S::Rounding(x) => Sh::Node(vec![Sh::Absent, self.expression(&x.operand)]),
+            S::Continue(_) | S::Break(_) => Sh::Node(vec![]),
+            S::ArrayPush(x) => Sh::Node(vec![
+                self.primary(&x.array),
+                self.opt(x.value.as_ref(), |v| match v {
+                    a::ArrayPushRHS::ExpressionList(e) => Sh::Node(vec![self.expression_list(e)]),
+                    a::ArrayPushRHS::PoeticNumberLiteral(p) => Sh::Node(vec![self.poetic(p)]),
+                }),
+            ]),
+            S::ArrayPop(x) => Sh::Node(vec![self.pop_expr(&x.expr), self.opt(x.dest.as_ref(), |l| self.lhs(l))]),
+            S::Function(x) => Sh::Node(vec![
+                self.variable_name(&x.name.0),
+                Sh::Node(vec![Sh::Node(x.data.params.iter().map(|p| self.variable_name(&p.0)).collect()), self.block(&x.data.body)]),
+            ]),
+            S::FunctionCall(f) => Sh::Node(vec![self.call(f)]),
+        }
+    }
+    fn lhs(&self, l: &a::AssignmentLHS) -> Sh {
+        match l {
+            a::AssignmentLHS::Identifier(i) => Sh::Node(vec![self.identifier(i)]),
+            a::AssignmentLHS::ArraySubscript(s) => Sh::Node(vec![self.subscript(s)]),
+        }
+    }
+    fn identifier(&self, i: &a::WithRange<a::Identifier>) -> Sh {
+        match &i.0 {
+            a::Identifier::VariableName(n) => Sh::Node(vec![self.variable_name(n)]),
+            a::Identifier::Pronoun => Sh::Node(vec![Sh::Leaf(Ev::Pronoun)]),
+        }
+    }
+    fn variable_name(&self, n: &a::VariableName) -> Sh {
+        Sh::Node(vec![Sh::Leaf(match n {
+            a::VariableName::Simple(x) => Ev::Simple(x.0.clone()),
+            a::VariableName::Common(x) => Ev::Common(x.0.clone(), x.1.clone()),
+            a::VariableName::Proper(x) => Ev::Proper(x.0.clone()),
+        })])
+    }
+    fn subscript(&self, s: &a::ArraySubscript) -> Sh {
+        Sh::Node(vec![self.primary(&s.array), self.primary(&s.subscript)])
+    }
+    fn primary(&self, p: &a::PrimaryExpression) -> Sh {
+        Sh::Node(vec![match p {
+            a::PrimaryExpression::Literal(l) => Sh::Leaf(Ev::Lit(format!("{:?}", l.0))),
+            a::PrimaryExpression::Identifier(i) => self.identifier(i),
+            a::PrimaryExpression::ArraySubscript(s) => self.subscript(s),
+            a::PrimaryExpression::FunctionCall(f) => self.call(f),
+            a::PrimaryExpression::ArrayPop(p) => self.pop_expr(p),
+        }])
+    }
+    fn call(&self, f: &a::FunctionCall) -> Sh {
+        let mut ch = vec![self.variable_name(&f.name.0)];
+        ch.extend(f.args.iter().map(|e| self.expression(e)));
+        Sh::Node(ch)
+    }
+    fn pop_expr(&self, p: &a::ArrayPopExpr) -> Sh {
+        Sh::Node(vec![self.primary(&p.array)])
+    }
+    fn expression(&self, e: &a::Expression) -> Sh {
+        Sh::Node(vec![match e {
+            a::Expression::PrimaryExpression(p) => self.primary(p),
+            a::Expression::BinaryExpression(b) => Sh::Node(vec![self.expression(&b.lhs), Sh::Leaf(Ev::Bin(format!("{:?}", b.operator))), self.expression_list(&b.rhs)]),
+            a::Expression::UnaryExpression(u) => Sh::Node(vec![Sh::Leaf(Ev::Un(format!("{:?}", u.operator))), self.expression(&u.operand)]),
+        }])
+    }
+    fn expression_list(&self, l: &a::ExpressionList) -> Sh {
+        let mut ch = vec![self.expression(&l.first)];
+        ch.extend(l.rest.iter().map(|e| self.expression(e)));
+        Sh::Node(ch)
+    }
+    fn poetic(&self, p: &a::PoeticNumberLiteral) -> Sh {
+        Sh::Node(p.elems.iter().map(|e| Sh::Leaf(Ev::PElem(format!("{:?}", e)))).collect())
+    }
 }
 
 // ---------------------------------------------------------------- typed reference walk over the public AST
@@ -818,6 +999,28 @@ impl C16 {
         compare(ctx, prog, &format!("visitor overriding visit_{}", PROBES[k]), &expected, fail_at, result, &log);
     }
 
+    fn grouping_case(&self, idx: u64, ctx: &mut Ctx) {
+        let prog = &self.progs[idx as usize];
+        let ast = to_ast::program(prog);
+        let shape = ShapeOf.program(&ast);
+        let mut runner = ExprVisitorRunner::with_inner(TreeRecorder);
+        let result = match runner.visit_program(&ast) {
+            Ok(t) => t,
+            Err(e) => {
+                ctx.violation("wrong-fold", format!("walk without failing callback returned Err({}) — program {:?}", e, prog));
+                return;
+            }
+        };
+        ctx.nontrivial();
+        ctx.observe_str(&format!("{:?}", result).len().to_string());
+        if !shape_matches(&result, &shape) {
+            ctx.violation(
+                "fold-not-left-to-right",
+                format!("with an output that remembers how it was combined, the result is not what folding every node's children left to right gives (an optional default first, absent parts as a default or left out): result {:?} — program {:?}", result, prog),
+            );
+        }
+    }
+
     fn fold_case(&self, idx: u64, ctx: &mut Ctx) {
         let prog = &self.progs[idx as usize];
         let ast = to_ast::program(prog);
@@ -913,6 +1116,7 @@ impl Check for C16 {
             ("program x failing leaf position".into(), *self.prefix.last().unwrap()),
             ("program x interior callback x failing entry".into(), *self.probe_prefix.last().unwrap()),
             ("program folded into an output with a visible default".into(), self.progs.len() as u64),
+            ("program folded into an output that shows the grouping".into(), self.progs.len() as u64),
         ]
     }
     fn describe(&self, fam: usize, idx: u64) -> Value {
@@ -927,14 +1131,16 @@ impl Check for C16 {
                 let (p, k) = (pk / PROBES.len(), pk % PROBES.len());
                 json!({"text": format!("{:?} override=visit_{} failing_entry={}", self.progs[p], PROBES[k], j)})
             }
-            _ => json!({"text": format!("{:?} output=marked", self.progs[idx as usize])}),
+            2 => json!({"text": format!("{:?} output=marked", self.progs[idx as usize])}),
+            _ => json!({"text": format!("{:?} output=grouping", self.progs[idx as usize])}),
         }
     }
     fn run_case(&self, fam: usize, idx: u64, ctx: &mut Ctx) {
         match fam {
             0 => self.leaf_case(idx, ctx),
             1 => self.probe_case(idx, ctx),
-            _ => self.fold_case(idx, ctx),
+            2 => self.fold_case(idx, ctx),
+            _ => self.grouping_case(idx, ctx),
         }
     }
     fn static_coverage(&self) -> Value {
